@@ -113,6 +113,8 @@ def toc_lookup_rules(ctx, rule='R8'):
     ae = toc.method('add_element')
     ep = ae.params[1]
     ws = [norm(s.targets[0]) for s in walk_own(ae.node) if isinstance(s, ast.Assign) and norm(s.value) == ep]
+    # D.setdefault(k, {})[n] = v  stores under D[k][n] as well
+    ws = ['self.toc[%s.group][%s.name]' % (ep, ep) if w.replace(' ', '') in ('self.toc.setdefault(%s.group,{})[%s.name]' % (ep, ep), 'self.toc.setdefault(%s.group,dict())[%s.name]' % (ep, ep)) else w for w in ws]
     ctx.inst(rule, ae, 'store-path', bool(ws) and set(ws) == {'self.toc[%s.group][%s.name]' % (ep, ep)}, 'elements are stored under toc[group][name]; stores %s' % ws)
     ge = toc.method('get_element')
     rets = [norm(s.value) for s in walk_own(ge.node) if isinstance(s, ast.Return) and s.value is not None and not isinstance(s.value, ast.Constant)]
